@@ -3,4 +3,4 @@
 package client
 
 // verifPause is a no-op unless built with the "verif" tag.
-func verifPause(string) {}
+func verifPause(*ovsdbClient, string) {}
